@@ -353,7 +353,7 @@ func lemmaCloseRoundTrip(code StatusCode, reason string) bool {
 //@   ensures  [one]   outCalls(w) == old(outCalls(w))+1
 //@   ensures  [len]   result == nil ==> outLen(w) == old(outLen(w))+specHdrLen(h.Length, h.Masked)
 //@   ensures  [bytes] result == nil ==> forall(0, specHdrLen(h.Length, h.Masked), func(k int) bool { return outByte(w, old(outLen(w))+k) == specHdrByte(h, k) })
-//@   ensures  [keep]  forall(0, old(outLen(w)), func(k int) bool { return outByte(w, k) == old(outByte(w, k)) })
+//@   ensures  [keep]  forall(0, old(outLen(w)), func(k int) bool { return outByte(w, k) == old(outByte(w, k)) }) && outLen(w) >= old(outLen(w)) && outCalls(w) >= old(outCalls(w))
 //@   assigns stream(w)
 
 //@ func ReadHeader
@@ -412,7 +412,7 @@ func specMask64(m [4]byte) uint64 {
 //@   ensures  [len]   result == nil ==> outLen(w) == old(outLen(w))+specHdrLen(f.Header.Length, f.Header.Masked)+len(f.Payload)
 //@   ensures  [hdr]   result == nil ==> forall(0, specHdrLen(f.Header.Length, f.Header.Masked), func(k int) bool { return outByte(w, old(outLen(w))+k) == specHdrByte(f.Header, k) })
 //@   ensures  [payload] result == nil ==> forall(0, len(f.Payload), func(k int) bool { return outByte(w, old(outLen(w))+specHdrLen(f.Header.Length, f.Header.Masked)+k) == f.Payload[k] })
-//@   ensures  [keep]  forall(0, old(outLen(w)), func(k int) bool { return outByte(w, k) == old(outByte(w, k)) })
+//@   ensures  [keep]  forall(0, old(outLen(w)), func(k int) bool { return outByte(w, k) == old(outByte(w, k)) }) && outLen(w) >= old(outLen(w)) && outCalls(w) >= old(outCalls(w))
 //@   ensures  [atmost] outCalls(w) <= old(outCalls(w))+2 && outCalls(w) >= old(outCalls(w))+1
 //@   assigns stream(w)
 
